@@ -4,6 +4,12 @@ files present) against the schemas in /root/.vp when those are available."""
 import json, os, sys, glob
 
 CHECKS = {
+ "C01": dict(
+    category="exploration",
+    technique="generative testing with rustc as oracle: proptest-generated schema models (supported-subset grammar) rendered to XSD/WSDL, emitted by zeep in a worker, type-checked with rustc --emit=metadata against exactly the six documented crates; failures shrunk on the model",
+    text="Hundreds (thorough: thousands) of generated schema sets covering every production of the supported subset (multi-file import DAGs, all occurrence combinations, nested sequences, choices, cross-file extensions, element refs, derived simple types, list/union, attributes, keyword member names, default-namespace and re-used prefixes, forward references, WSDLs with headers / one-way / unnamed body parts) are emitted and compiled as a module of a crate that links only yaserde, yaserde_derive, xml-rs, log, reqwest, tokio. The repository's own inputs serve as a regression corpus against a committed baseline. Held = every accepted generated input compiled.",
+    note="Trusted: rustc and the dependency artifacts built from the repository's Cargo.lock. Gate: type names colliding with prelude identifiers are masked (open finding F17, replayed separately). Inputs outside the grammar are only covered by C13.",
+    design="DESIGN.md section 4 C01"),
  "C06": dict(
     category="exploration",
     technique="property-based differential testing: exhaustive small-bound sweep + proptest-generated triples against an executable XSD-facet specification (i128)",
